@@ -357,6 +357,27 @@ def run_jobs(jobs, timeout, par=None):
     return res
 
 
+def _timed_out(d) -> bool:
+    """did the worker give up waiting (overloaded machine / deadlock) rather than observe an outcome?"""
+    if "Timeout" in str(d.get("crash") or ""):
+        return True
+    return any(x == "HARNESS-TIMEOUT" for x in (d.get("hold") or []))
+
+
+def run_jobs_retry(jobs, timeout):
+    """`run_jobs`; jobs in which the worker's own step timeout fired are run once more, two at a time; if that happens
+    again it is a tool timeout (exit 2) — a harness timeout is never reported as an outcome of the implementation"""
+    res = run_jobs(jobs, timeout)
+    again = [j for j in jobs if _timed_out(res[j["id"]])]
+    if again:
+        res2 = run_jobs(again, timeout, par=2)
+        for j in again:
+            if _timed_out(res2[j["id"]]):
+                raise ToolTimeout("worker step timeout (twice) in job " + str(j["id"])[:200])
+            res[j["id"]] = res2[j["id"]]
+    return res
+
+
 # ---- (1) deterministic replay with host-function gates -------------------------------------------
 
 def gate_replay(threads) -> List[str]:
@@ -896,8 +917,8 @@ class C16(Prop):
         if not todo:
             return
         self.prefetch_solo(todo)
-        res = run_jobs([{"id": case_key(c), "hold": {"threads": c["threads"], "release": c.get("release", []),
-                                                     "prebuild": c.get("prebuild", False)}} for c in todo], timeout)
+        res = run_jobs_retry([{"id": case_key(c), "hold": {"threads": c["threads"], "release": c.get("release", []),
+                                                           "prebuild": c.get("prebuild", False)}} for c in todo], timeout)
         for c in todo:
             d = res[case_key(c)]
             r = d.get("hold")
@@ -913,7 +934,7 @@ class C16(Prop):
                     jobs[k] = solo_ops(th)
         if not jobs:
             return
-        res = run_jobs([{"id": k, "ops": v} for k, v in jobs.items()], timeout)
+        res = run_jobs_retry([{"id": k, "ops": v} for k, v in jobs.items()], timeout)
         for k in jobs:
             obs = res[k].get("obs")
             self._solo[k] = solo_canon(obs[-1]) if obs else "HARNESS-CRASH"
@@ -934,7 +955,7 @@ class C16(Prop):
                 k = json.dumps(t)
                 if k not in self._alone:
                     alone[k] = t
-        res = run_jobs(jobs + [{"id": "alone:" + k, "ops": v} for k, v in alone.items()], timeout)
+        res = run_jobs_retry(jobs + [{"id": "alone:" + k, "ops": v} for k, v in alone.items()], timeout)
         for k in alone:
             d = res["alone:" + k]
             self._alone[k] = d.get("obs") or [["HARNESS-CRASH", "HARNESS-CRASH " + str(d.get("crash"))]]
